@@ -90,6 +90,46 @@ Definition b_uniform (seed seq : Z) (l u : f32) (n : nat) : f32 :=
 Definition b_color (i m : Z) : f32 :=
   bmul (b_of_u32 (color_g i mod m)) (bdiv c_one (b_of_u32 (m - 1))).
 
+(* ---------------------------------------------------------------------------------------------
+   binary64 twin of the double overloads / instantiations of rkmath.h:
+   rcp(double), rcp_safe(double) = rcp_safe_t<double>, rsqrt(double), clamp<double>, deg2rad<double>,
+   madd<double>, lerp<double> (the factor is a FLOAT: 1.f - factor is computed in float, then widened). *)
+Definition f64 := binary64.
+Definition Hprec64 : FLX.Prec_gt_0 53 := eq_refl.
+Definition Hmax64 : Prec_lt_emax 53 1024 := eq_refl.
+Definition of_bits64 (z : Z) : f64 := b64_of_bits z.
+Definition to_bits64 (x : f64) : Z := if is_nan 53 1024 x then 9221120237041090560 else bits_of_b64 x.
+Definition dadd := b64_plus mode_NE.
+Definition dsub := b64_minus mode_NE.
+Definition dmul := b64_mult mode_NE.
+Definition ddiv := b64_div mode_NE.
+Definition dsqrt := b64_sqrt mode_NE.
+Definition dltb (a b : f64) : bool := match b64_compare a b with Some Lt => true | _ => false end.
+Definition dgeb (a b : f64) : bool := match b64_compare a b with Some Gt | Some Eq => true | _ => false end.
+Definition d_zero : f64 := of_bits64 0.
+Definition d_one : f64 := of_bits64 4607182418800017408.          (* 0x3FF0000000000000 *)
+Definition d_dblmin : f64 := of_bits64 4503599627370496.          (* 0x0010000000000000 = DBL_MIN *)
+Definition d_deg2rad_c : f64 := of_bits64 4580687790476533049.      (* 0x3F91DF46A2529D39 = 1.745329251994329576923690768489e-2 *)
+(* float -> double conversion (exact) *)
+Definition d_of_f32 (x : f32) : f64 :=
+  match x with
+  | Binary.B754_zero _ _ s => Binary.B754_zero 53 1024 s
+  | Binary.B754_infinity _ _ s => Binary.B754_infinity 53 1024 s
+  | Binary.B754_nan _ _ _ _ _ => of_bits64 9221120237041090560
+  | Binary.B754_finite _ _ s m e _ => binary_normalize 53 1024 Hprec64 Hmax64 mode_NE (if s then Zneg m else Zpos m) e s
+  end.
+Definition d_rcp (x : f64) : f64 := ddiv d_one x.
+Definition d_rsqrt (x : f64) : f64 := ddiv d_one (dsqrt x).
+(* rcp_safe_t<double>: flt_min = numeric_limits<double>::min();  abs(x) < flt_min ? (x >= 0.f ? flt_min : -flt_min) : x *)
+Definition d_rcp_safe (x : f64) : f64 :=
+  d_rcp (if dltb (b64_abs x) d_dblmin
+         then (if dgeb x (d_of_f32 c_zero) then d_dblmin else b64_opp d_dblmin) else x).
+Definition d_clamp (x lo hi : f64) : f64 := clamp f64 dltb x lo hi.
+Definition d_deg2rad (x : f64) : f64 := dmul x d_deg2rad_c.
+Definition d_madd (a b c : f64) : f64 := dadd (dmul a b) c.
+Definition d_lerp (f : f32) (a b : f64) : f64 :=
+  dadd (dmul (d_of_f32 (bsub c_one f)) a) (dmul (d_of_f32 f) b).
+
 (* seeds arrive as the value of the C++ int (may be negative) *)
 Definition run_case (fn : Z) (a : list Z) : Z :=
   match fn, a with
@@ -107,6 +147,13 @@ Definition run_case (fn : Z) (a : list Z) : Z :=
   | 12, [seed; seq; lo; hi; n] => to_bits (b_uniform seed seq (of_bits lo) (of_bits hi) (Z.to_nat n))
   | 13, [i; m] => to_bits (b_color i m)
   | 16, [] => to_bits c_deg2rad
+  | 40, [x] => to_bits64 (d_rcp (of_bits64 x))
+  | 41, [x] => to_bits64 (d_rcp_safe (of_bits64 x))
+  | 42, [x] => to_bits64 (d_rsqrt (of_bits64 x))
+  | 43, [x; lo; hi] => to_bits64 (d_clamp (of_bits64 x) (of_bits64 lo) (of_bits64 hi))
+  | 44, [x] => to_bits64 (d_deg2rad (of_bits64 x))
+  | 45, [x; y; z] => to_bits64 (d_madd (of_bits64 x) (of_bits64 y) (of_bits64 z))
+  | 46, [f; x; y] => to_bits64 (d_lerp (of_bits f) (of_bits64 x) (of_bits64 y))
   | 17, [lo; hi; k] => to_bits (b_pcg_float_k (of_bits lo) (of_bits hi) k)
   | 18, [lo; hi; k] => to_bits (b_uniform_k (of_bits lo) (of_bits hi) k)
   | 19, [lo; hi; k] => to_bits (b_uniform_old_k (of_bits lo) (of_bits hi) k)
